@@ -38,3 +38,19 @@ Proof.
         rewrite U, W. destruct (trie_walk T2 rest [x] (negb (e_left (uni T2 x)))); [rewrite C|]; reflexivity.
   - unfold get_state. destruct (firstn (N - 1) ctx); [reflexivity|]. rewrite U, G. reflexivity.
 Qed.
+
+(* the loaders' invariant only ever applies the table: it transfers along pointwise equality *)
+Lemma TInv_ext : forall n (T1 T2 : table) M, (forall k, T1 k = T2 k) -> TInv n T1 M -> TInv n T2 M.
+Proof.
+  intros n T1 T2 M H [I1 I2 I3 I4 I5 I6 I7 I8]. constructor.
+  - intros k x Hk Hx. rewrite <- H in *. exact (I1 k x Hk Hx).
+  - intros k e He Hl. rewrite <- H in He. destruct (I2 k e He Hl) as [A B]. split.
+    + intros Hle. destruct (A Hle) as [x Hx]. exists x. rewrite <- H. exact Hx.
+    + intros [x Hx]. apply B. exists x. rewrite H. exact Hx.
+  - intros w c e He. rewrite <- H in He. exact (I3 w c e He).
+  - intros k e He. rewrite <- H in He. exact (I4 k e He).
+  - intros k Hk. rewrite <- H in Hk. exact (I5 k Hk).
+  - intros k e He Hx. rewrite <- H in He. destruct (I6 k e He Hx) as [A B]. split; [exact A|]. intros x. rewrite <- H. apply B.
+  - intros w k Hk Hw. rewrite <- H in *. exact (I7 w k Hk Hw).
+  - intros k Hk. rewrite <- H in Hk. exact (I8 k Hk).
+Qed.
